@@ -79,7 +79,8 @@ func Patch(y tensor.Tensor, x tensor.Tensor, p tensor.Tensor, index []tensor.Ran
 			{
 				target: p,
 				gradFn: func() (tensor.Tensor, error) {
-					return y.Gradient().Slice(index)
+					// an omitted range places the source at offset 0 with its own size, not the whole dimension
+					return y.Gradient().Slice(completedIndex(index, p.Shape()))
 				},
 			},
 		},
